@@ -65,10 +65,10 @@ pub mod unit_progress {
     pub struct ArrayView3<'a, X> { _t: core::marker::PhantomData<&'a X> }
     pub uninterp spec fn view_of<'a, X>(v: ArrayView3<'a, X>) -> (Vals, Seq<usize>);
     impl<'a, X> ArrayView3<'a, X> {
-        /// Ok iff the slice has exactly d0*d1*d2 elements
+        /// Err iff the slice has fewer than d0*d1*d2 elements
         #[verifier::external_body]
         pub fn from_shape(dims: [usize; 3], s: &'a [X]) -> (r: Result<ArrayView3<'a, X>, ShapeError>)
-            ensures (r is Ok) == (s@.len() == dims@[0] * dims@[1] * dims@[2]), r is Ok ==> view_of(r->Ok_0) == (slice_vals(s@), dims@)
+            ensures (r is Ok) == (s@.len() >= dims@[0] * dims@[1] * dims@[2]), r is Ok ==> view_of(r->Ok_0) == (slice_vals(s@), dims@)
         { unimplemented!() }
     }
     #[verifier::external_body]
